@@ -183,7 +183,7 @@ def run(ctx):
     ctx.functions.update(["rspirv::binary::Decoder::{word,words,id,bit32,bit64,ext_inst_integer,string,set_limit,clear_limit,has_limit,limit_reached,offset}",
                           "Decoder::{source_language,function_control,addressing_model}"])
     ctx.extra["typed_requests_decided_from_mir"] = typed_requests_mir(ctx)
-    res = kani.run_many(hs, cap_s=420 if ctx.tier == "quick" else 2400)
+    res = kani.run_many(hs, cap_s=1500 if ctx.tier == "quick" else 3000)
     kani.settle(ctx, res, lambda h: h[2:])
     ctx.extra["states"] = sum(r.checks_total for r in res.values()) or 1
     ctx.extra["transitions"] = len(hs)
